@@ -1,6 +1,7 @@
 CONSTANTS
   MaxOps = 2
   MaxDepthC = 1
+  Pattern = "any"
   Dump = FALSE
 INIT Init
 NEXT Next
